@@ -45,7 +45,14 @@ class L2:
         return X.SliceV(oid, (), 0, n, n), oid
 
     def result(self, path, v):
-        return path.heap[v.obj][0]
+        c = path.heap[v.obj][0]
+        if isinstance(c, list):
+            # written field by field: re-assemble the abstract value (or fail: the caller records a non-group result)
+            try:
+                return self.grp.get(path, v)
+            except X.ExecError:
+                return c
+        return c
 
     def check_result(self, label, fname, paths, v, want, t0, inputs_unwritten=()):
         """want: {gen: LF}; all paths must return with v = exactly that vector"""
